@@ -369,13 +369,15 @@ fn app_main(node: u32, inc: u32, spec: NodeSpec, from_ms: u64, sc: Arc<Scenario>
     ctl::sleep_until_ns(ms(start));
     ctl::mark(format!("ctor:{}:{}", node, inc));
     let mut timeout_ms = 3000u64;
+    let v4 = !sc.v6;
+    let scope = if v4 { simple_mdns::NetworkScope::V4 } else { simple_mdns::NetworkScope::V6 };
     let handle = match &spec.kind {
         NodeKind::Discovery { service, instance, ttl, channel, asyncv: true } => {
             let (tx, rx) = simrt::shim_tokio::sync::mpsc::channel(4096);
             let inst = build_instance(instance, sc.seed ^ node as u64);
             let (svc, ttl, ch) = (service.clone(), *ttl, *channel);
             match api(&obs, node, "async ServiceDiscovery::new", move || {
-                adisc::ServiceDiscovery::new_with_scope(inst, &svc, ttl, if ch { Some(tx) } else { None }, simple_mdns::NetworkScope::V4)
+                adisc::ServiceDiscovery::new_with_scope(inst, &svc, ttl, if ch { Some(tx) } else { None }, scope)
             }) {
                 Some(Ok(d)) => {
                     push(&obs, ObsItem::Constructed { node, inc, ok: true, err: String::new() });
@@ -390,7 +392,7 @@ fn app_main(node: u32, inc: u32, spec: NodeSpec, from_ms: u64, sc: Arc<Scenario>
         }
         NodeKind::Responder { ttl, asyncv: true } => {
             let ttl = *ttl;
-            match api(&obs, node, "async SimpleMdnsResponder::new", move || adisc::SimpleMdnsResponder::new(ttl)) {
+            match api(&obs, node, "async SimpleMdnsResponder::new", move || adisc::SimpleMdnsResponder::new_with_scope(ttl, scope)) {
                 Some(r) => {
                     push(&obs, ObsItem::Constructed { node, inc, ok: true, err: String::new() });
                     Handle::AResp(r)
@@ -398,7 +400,7 @@ fn app_main(node: u32, inc: u32, spec: NodeSpec, from_ms: u64, sc: Arc<Scenario>
                 None => Handle::Failed,
             }
         }
-        NodeKind::Resolver { asyncv: true } => match api(&obs, node, "async OneShotMdnsResolver::new", adisc::OneShotMdnsResolver::new) {
+        NodeKind::Resolver { asyncv: true } => match api(&obs, node, "async OneShotMdnsResolver::new", move || adisc::OneShotMdnsResolver::new_with_scope(scope)) {
             Some(Ok(r)) => Handle::ARes(r),
             _ => Handle::Failed,
         },
@@ -407,7 +409,7 @@ fn app_main(node: u32, inc: u32, spec: NodeSpec, from_ms: u64, sc: Arc<Scenario>
             let inst = build_instance(instance, sc.seed ^ node as u64);
             let (svc, ttl, ch) = (service.clone(), *ttl, *channel);
             match api(&obs, node, "ServiceDiscovery::new", move || {
-                ServiceDiscovery::new_with_scope(inst, &svc, ttl, if ch { Some(tx) } else { None }, simple_mdns::NetworkScope::V4)
+                ServiceDiscovery::new_with_scope(inst, &svc, ttl, if ch { Some(tx) } else { None }, scope)
             }) {
                 Some(Ok(d)) => {
                     push(&obs, ObsItem::Constructed { node, inc, ok: true, err: String::new() });
@@ -422,7 +424,7 @@ fn app_main(node: u32, inc: u32, spec: NodeSpec, from_ms: u64, sc: Arc<Scenario>
         }
         NodeKind::Responder { ttl, .. } => {
             let ttl = *ttl;
-            match api(&obs, node, "SimpleMdnsResponder::new", move || SimpleMdnsResponder::new(ttl)) {
+            match api(&obs, node, "SimpleMdnsResponder::new", move || SimpleMdnsResponder::new_with_scope(ttl, scope)) {
                 Some(r) => {
                     push(&obs, ObsItem::Constructed { node, inc, ok: true, err: String::new() });
                     Handle::Resp(r)
@@ -430,11 +432,11 @@ fn app_main(node: u32, inc: u32, spec: NodeSpec, from_ms: u64, sc: Arc<Scenario>
                 None => Handle::Failed,
             }
         }
-        NodeKind::Resolver { .. } => match api(&obs, node, "OneShotMdnsResolver::new", OneShotMdnsResolver::new) {
+        NodeKind::Resolver { .. } => match api(&obs, node, "OneShotMdnsResolver::new", move || OneShotMdnsResolver::new_with_scope(scope)) {
             Some(Ok(r)) => Handle::Res(r),
             _ => Handle::Failed,
         },
-        NodeKind::RawPeer { port, joined } => Handle::Raw(net::raw_socket(true, *port, *joined).unwrap()),
+        NodeKind::RawPeer { port, joined } => Handle::Raw(net::raw_socket(v4, *port, *joined).unwrap()),
     };
     let mut handle = handle;
     let mut recv_from_seq = 0u64;
@@ -473,6 +475,12 @@ fn app_main(node: u32, inc: u32, spec: NodeSpec, from_ms: u64, sc: Arc<Scenario>
                     let insts = known.iter().map(InstObs::from_real).collect();
                     push(&obs, ObsItem::Known { node, inc, mark_seq, insts, c16 });
                 }
+            }
+            (Handle::Disc(_, rx), AppOp::DropChannel) => {
+                *rx = None;
+            }
+            (Handle::ADisc(_, rx), AppOp::DropChannel) => {
+                *rx = None;
             }
             (Handle::Disc(d, _), AppOp::Announce(flush)) => {
                 let f = *flush;
@@ -581,15 +589,15 @@ fn app_main(node: u32, inc: u32, spec: NodeSpec, from_ms: u64, sc: Arc<Scenario>
             (Handle::Raw(s), AppOp::SendMsg { msg, compress, unicast_to, .. }) => {
                 let bytes = refdns::encode(msg, *compress);
                 let dst = match unicast_to {
-                    Some(n) => std::net::SocketAddr::new(net::node_ip(*n, true), net::MDNS_PORT),
-                    None => net::group_addr(true),
+                    Some(n) => std::net::SocketAddr::new(net::node_ip(*n, v4), net::MDNS_PORT),
+                    None => net::group_addr(v4),
                 };
                 let _ = s.send_to(&bytes, dst);
             }
             (Handle::Raw(s), AppOp::SendRaw { bytes, unicast_to }) => {
                 let dst = match unicast_to {
-                    Some(n) => std::net::SocketAddr::new(net::node_ip(*n, true), net::MDNS_PORT),
-                    None => net::group_addr(true),
+                    Some(n) => std::net::SocketAddr::new(net::node_ip(*n, v4), net::MDNS_PORT),
+                    None => net::group_addr(v4),
                 };
                 let _ = s.send_to(bytes, dst);
             }
@@ -767,7 +775,8 @@ pub fn run(sc: &Scenario) -> RunOutput {
         if sc.probe {
             ctl::sleep_until_ns(ms(sc.duration_ms + SETTLE_MS));
             let probe_node = PROBE_NODE_OFFSET;
-            let sock = ctl::on_node(probe_node, || net::raw_socket(true, Some(net::MDNS_PORT), true).unwrap());
+            let v4 = !sc.v6;
+            let sock = ctl::on_node(probe_node, || net::raw_socket(v4, Some(net::MDNS_PORT), true).unwrap());
             let mut buf = [0u8; 9000];
             while sock.try_recv_from(&mut buf).is_some() {}
             let mut id = 60000u16;
@@ -779,7 +788,7 @@ pub fn run(sc: &Scenario) -> RunOutput {
                     id += 1;
                     let m = MsgSpec { id, flags: 0, questions: vec![q.clone()], ..Default::default() };
                     let bytes = refdns::encode(&m, false);
-                    let _ = ctl::on_node(probe_node, || sock.send_to(&bytes, net::group_addr(true)));
+                    let _ = ctl::on_node(probe_node, || sock.send_to(&bytes, net::group_addr(v4)));
                     push(&obs, ObsItem::ProbeSent { node, id, seq: ctl::seq(), what: refdns::name_to_string(&q.name) });
                 }
             }
